@@ -499,11 +499,15 @@ func (c *collector) getName(m metricdata.Metrics, typ *dto.MetricType) string {
 	if addCounterSuffix {
 		// Remove the _total suffix here, as we will re-add the total suffix
 		// later, and it needs to come after the unit suffix.
-		name = strings.TrimSuffix(name, counterSuffix)
+		// A name that is nothing but the suffix ("total") is kept as it is:
+		// trimming it would leave an empty name.
+		if trimmed := strings.TrimSuffix(name, counterSuffix); trimmed != "" {
+			name = trimmed
+		}
 		// If the last character is an underscore, or would be converted to an underscore, trim it from the name.
 		// an underscore will be added back in later.
-		if convertsToUnderscore(rune(name[len(name)-1])) {
-			name = name[:len(name)-1]
+		if n := len(name); n > 0 && convertsToUnderscore(rune(name[n-1])) {
+			name = name[:n-1]
 		}
 	}
 	if c.namespace != "" {
